@@ -7,7 +7,7 @@ META = {
     "technique": "Lean model of compress/snappy/xerial.go (writer loop/Flush/Close, reader readChunk/Read with header detection, unframed and direct-decode paths, Reset) over an abstract block codec with kernel-checked theorems (content conservation, block bounds, output = Spec framing, Spec.parse∘frame = id, reader drains reference streams, round trip, Reset = fresh); independent framing spec Spec/Xerial; correspondence of the real codecs (gzip, snappy framed/unframed, lz4, zstd) through a compiled Lean oracle: writer block partition and reader Read-size sequences vs the model, losslessness under random Write/Read chunking, interop both ways with stdlib gzip, golang/snappy + eapache/go-xerial-snappy, pierrec/lz4 and klauspost/zstd used directly, pooled-object history independence (after normal, truncated, corrupt, abandoned and failed-sink streams), concurrent use (-race in thorough).",
     "level_claimed": {
         "category": "proof",
-        "text": "Kernel-checked for the xerial framing and the pool protocol, for every payload, every split into Write calls and any block codec with dec(enc b) = b: the writer's output is exactly the Spec framing of blocks that concatenate to the payload, each non-empty and ≤ 32 KiB (one raw block when unframed); Spec.parse accepts it; the reader drains every Spec-framed reference stream and every unframed block (not starting with the magic) to the concatenation; round trip writer→reader; Reset yields the fresh state. The READER is proved for ARBITRARY Read buffer sizes (reads_reference_streams, reads_reference_unframed, xerial_roundtrip full: writer→reader for every payload, Write split and Read size sequence, framed and unframed) and also compared with the real reader's Read-size sequences. Pool protocol LTS (acquire/Reset/use/Close/Put, repeated Close, pool drops): pool_inv / pool_no_sharing (an object is in the pool at most once, never while in use, never used by two wrappers) over all op sequences, close_idempotent, double_close_counterexample for a Close that keeps its object. Block size / flush threshold regenerated from xerial.go (gen_xerial_consts). Round 3: the underlying io.Reader is a parameter of the reader model (any script of short reads, (0,nil) answers, data returned together with io.EOF): source_independent, reads_reference_streams_any_source, xerial_roundtrip_any_source (+ data_with_eof_counterexample); 'Put is the last touch' (touch_exclusive, put_before_reset_counterexample) with the statement order of all 8 Close methods extracted by go/ast on every run (gen_close_order). gzip / lz4 / zstd wrappers only pool + Reset library objects: correspondence only (losslessness, interop, history independence, concurrency), conditional on the libraries' Reset contracts.",
+        "text": "Kernel-checked for the xerial framing and the pool protocol, for every payload, every split into Write calls and any block codec with dec(enc b) = b: the writer's output is exactly the Spec framing of blocks that concatenate to the payload, each non-empty and ≤ 32 KiB (one raw block when unframed); Spec.parse accepts it; the reader drains every Spec-framed reference stream and every unframed block (not starting with the magic) to the concatenation; round trip writer→reader; Reset yields the fresh state. The READER is proved for ARBITRARY Read buffer sizes (reads_reference_streams, reads_reference_unframed, xerial_roundtrip full: writer→reader for every payload, Write split and Read size sequence, framed and unframed) and also compared with the real reader's Read-size sequences. Pool protocol LTS (acquire/Reset/use/Close/Put, repeated Close, pool drops): pool_inv / pool_no_sharing (an object is in the pool at most once, never while in use, never used by two wrappers) over all op sequences, close_idempotent, double_close_counterexample for a Close that keeps its object. Block size / flush threshold regenerated from xerial.go (gen_xerial_consts). Round 3: the underlying io.Reader is a parameter of the reader model (any script of short reads, (0,nil) answers, data returned together with io.EOF): source_independent, reads_reference_streams_any_source, xerial_roundtrip_any_source (+ data_with_eof_counterexample); 'Put is the last touch' (touch_exclusive, put_before_reset_counterexample) with the statement order of all 8 Close methods extracted by go/ast on every run (gen_close_order). Round 4: configuration-keyed pools (cfg_respected, shared_pool_counterexample, extracted pool ownership gen_pool_keys), lib_history_independent for the library-backed codecs under their Reset contract, io.Copy paths WriteTo / ReadFrom modelled and proved (writeTo_reference_streams, readFrom_conserves). gzip / lz4 / zstd wrappers only pool + Reset library objects: correspondence only (losslessness, interop, history independence, concurrency), conditional on the libraries' Reset contracts. Later: the premise of reset_fresh is read off the source (go/extract resetfields -> Gen/XerialReset, gen_reset_complete: every mutable field of xerialReader / xerialWriter is assigned by Reset, by the constructor after the pool Get, or is scratch); streams that END EARLY: simulation lemmas (Lemmas/XerialCut) and truncated_stream_prefix(+_any_source): for a framed reference stream cut anywhere after the header, any Read sizes and any source behaviour, everything handed out before the end/error is a prefix of the payload; op xrcut runs the real xerialReader on such streams against the model (it corrected the model: a stream that stops right after a frame length is reported as a clean io.EOF by the code).",
         "design_ref": "DESIGN.md §7 C16",
     },
     "level_note": "Trusted: Lean kernel; propext/Classical.choice/Quot.sound; Spec/Xerial.lean is my transcription of the snappy-java framing; the block compressors (klauspost snappy/s2, gzip, zstd, pierrec lz4) are parameters of the model and are not verified (their dec∘enc = id and Reset contracts are sampled by the correspondence); sync.Pool is modelled as 'may return any previously Put object or none'; an unframed raw snappy block whose first 8 bytes equal the xerial magic is indistinguishable from a framed stream by design of the format (needs a block of ≥ 2^… bytes whose uvarint length starts 0x82 0x53 …: length ≡ 0x…2982, excluded as hypothesis and not generated).",
@@ -28,9 +28,15 @@ def run(ctx):
     ok, log = ctx.extract("records", ["lean/KafkaVerif/Gen/RecordConsts.lean"])
     if not ok:
         broken.append({"kind": "obligation", "name": "translator go/extract records", "detail": log[-1500:]})
+    ok, log = ctx.extract("poolkeys", ["lean/KafkaVerif/Gen/CodecPools.lean"])
+    if not ok:
+        broken.append({"kind": "obligation", "name": "translator go/extract poolkeys", "detail": log[-1500:]})
     ok, log = ctx.extract("closeorder", ["lean/KafkaVerif/Gen/CodecClose.lean"])
     if not ok:
         broken.append({"kind": "obligation", "name": "translator go/extract closeorder", "detail": log[-1500:]})
+    ok, log = ctx.extract("resetfields", ["lean/KafkaVerif/Gen/XerialReset.lean"])
+    if not ok:
+        broken.append({"kind": "obligation", "name": "translator go/extract resetfields", "detail": log[-1500:]})
     res = ctx.prove(MODULE)
     if not res["ok"]:
         broken.append({"kind": "obligation", "theorems": res["failed"], "detail": res["reasons"][:10]})
@@ -61,7 +67,7 @@ def run(ctx):
         ctx.coverage["race_detector"] = bool(race)
     ctx.coverage["rule"] = ("payloads: incompressible / highly compressible / text-like (containing the xerial magic), sizes 1,2,5,15,16,17,20,100,1023,1024,4096,31743..31745,32767..32769,65535..65537,100000,200000; "
                             "Write splits: whole, 1..7 bytes, around 1 KiB/31 KiB/32 KiB, random up to 70 000, 4096; Read buffers 1..3, 512, random, 100 000, {1,16,4096,32768,32769}; underlying reader delivers in pieces; "
-                            "10 codec values (fresh and the global compress.Codecs entries; snappy framed, unframed, faster); history: 7 disturbance kinds (incl. double Close of writer and reader, and the library's own v1/v2 record-set encoder+decoder) × 10 codecs, each followed by 3 OVERLAPPING writers then 3 overlapping readers (all opened before use) checked with the reference decoders, and by the sequential byte-identity check; concurrency: 16 goroutines × 8 streams per codec; sources deliver short reads, occasional (0,nil) (not for zstd: third-party decoder quirk), final bytes together with io.EOF; srcerr/wrerr: source / sink failing after k bytes; stress: 24–48 goroutines in tight open/close loops with 4 readers each, also under -race in the quick tier")
+                            "10 codec values (fresh and the global compress.Codecs entries; snappy framed, unframed, faster); history: 7 disturbance kinds (incl. double Close of writer and reader, and the library's own v1/v2 record-set encoder+decoder) × 10 codecs, each followed by 3 OVERLAPPING writers then 3 overlapping readers (all opened before use) checked with the reference decoders, and by the sequential byte-identity check; concurrency: 16 goroutines × 8 streams per codec; sources deliver short reads, occasional (0,nil) (not for zstd: third-party decoder quirk), final bytes together with io.EOF; srcerr/wrerr: source / sink failing after k bytes; cfg: 18 configurations of the 4 kinds interleaved, each vs its own pristine output from a fresh process; xwf: io.Copy into the writer from scripted sources; stress: 24–48 goroutines in tight open/close loops with 4 readers each, also under -race in the quick tier")
     concrete = [d for d in dis if d.get("kind") == "disagreement"]
     others = [d for d in dis if d not in concrete]
     recorded = 0
